@@ -890,6 +890,10 @@ def verify(registry, top, tier='quick', max_paths=4000, collect_pre=True):
                 ob.info['headstate'] = getattr(path, 'headstate', None)
             ob.info['decisions'] = tuple(path.decisions)
             res.obligations.append(ob)
+    if res.paths == 0 and not res.undecided:
+        # every path died as infeasible: `requires` is unsatisfiable or an applied callee contract has an unsatisfiable
+        # postcondition -- nothing was verified, which must never read as a pass
+        res.undecided.append('no feasible path (vacuous): requires, or the postcondition of an applied callee contract, is unsatisfiable')
     res.feas_checks = explorer.feas_checks
     return res
 
